@@ -107,7 +107,16 @@ async fn vault_sites(path: &Path, rng: &mut Rng, dense: bool) -> Vec<Site> {
             if n == 0 {
                 return;
             }
-            let picks: Vec<usize> = if dense || n <= 4 { (0..n).collect() } else { vec![0, n - 1, rng.usize(n), rng.usize(n)] };
+            // dense: every byte of the short fields, 16 evenly spaced bytes (and the last) of long ones
+            let picks: Vec<usize> = if n <= 4 || (dense && n <= 32) {
+                (0..n).collect()
+            } else if dense {
+                let mut v: Vec<usize> = (0..16).map(|i| i * n / 16).collect();
+                v.push(n - 1);
+                v
+            } else {
+                vec![0, n - 1, rng.usize(n), rng.usize(n)]
+            };
             for i in picks {
                 out.push(Site { file: path.to_path_buf(), offset: (start + i) as u64, class, enforced });
             }
@@ -138,7 +147,15 @@ fn event_sites(path: &Path, header: usize, rng: &mut Rng, dense: bool) -> Vec<Si
             if cnt == 0 {
                 return;
             }
-            let picks: Vec<usize> = if dense || cnt <= 4 { (0..cnt).collect() } else { vec![0, cnt - 1, rng.usize(cnt), rng.usize(cnt)] };
+            let picks: Vec<usize> = if cnt <= 4 || (dense && cnt <= 32) {
+                (0..cnt).collect()
+            } else if dense {
+                let mut v: Vec<usize> = (0..16).map(|i| i * cnt / 16).collect();
+                v.push(cnt - 1);
+                v
+            } else {
+                vec![0, cnt - 1, rng.usize(cnt), rng.usize(cnt)]
+            };
             for i in picks {
                 out.push(Site { file: path.to_path_buf(), offset: (start + i) as u64, class, enforced });
             }
@@ -210,7 +227,7 @@ pub async fn run(args: &Args, rep: &mut Reporter) {
             // report machinery may use (8, 16, 32 ...)
             if let Some(o) = s.opened.as_mut() {
                 if let Some(f) = o.account.default_folder().await.map(|f| *f.id()) {
-                    let n = args.by_tier(40usize, 80usize);
+                    let n = args.by_tier(40usize, 50usize);
                     let mut g = vmodel::secgen::Gen::new(&mut rng);
                     g.allow_large = false;
                     for k in 0..n {
